@@ -1012,8 +1012,11 @@ Proof.
   { clear - H. revert H. generalize 0 as j. generalize l2 as acc. induction ds as [|d t IH]; intros acc j H; [reflexivity|].
     cbn [extra_urls] in H. cbn [forallb]. destruct (digest_valid d); [|discriminate]. cbn [andb]. exact (IH _ _ H). }
   split; [|split].
-  - unfold read_cri, read_with. rewrite !Hk by reflexivity. cbn [lget key_eqb]. rewrite Href, Hdc.
-    fold ds. rewrite (read_neigh_valid _ _ _ _ Hvalid). unfold urls_of, wire. rewrite Hk by reflexivity. reflexivity.
+  - unfold read_cri, read_with.
+    rewrite (Hk KCriRef) by reflexivity. rewrite (Hk KCriDigest) by reflexivity. rewrite (Hk KCriLayers) by reflexivity.
+    unfold urls_of. rewrite (Hk KUrls) by reflexivity.
+    unfold l2. cbn [lget key_eqb]. rewrite Href, Hdc.
+    fold ds. rewrite (read_neigh_valid _ _ _ _ Hvalid). reflexivity.
   - intros i d Hnth. unfold urls_of. rewrite Hidx, Hnth. unfold own_urls, wire.
     destruct (layer_from_digest children d) as [ch|]; [|reflexivity]. destruct (c_layer ch); reflexivity.
   - exact (layer_from_digest_own children).
